@@ -144,6 +144,10 @@ def fold_int(S: Sem, e: ast.AST, at: int) -> Optional[int]:
             p = fold_str(x.args[0])
             if p is not None and all(isinstance(y, str) for y in p):
                 return len("".join(p))
+        if isinstance(x, ast.Call) and call_name(x) in ("max", "min") and x.args and not x.keywords:
+            vs = [go(a) for a in x.args]
+            if all(v is not None for v in vs):
+                return max(vs) if call_name(x) == "max" else min(vs)
         return None
     return go(r)
 
@@ -218,6 +222,9 @@ def _is_T102(c: ast.AST) -> bool:
     return False
 
 
+_UNFOLDED: List[str] = []
+
+
 def _reader_blocks(g, S: Sem):
     """Nested-comprehension reads `[[f.readline().split()[a:b] for _ in range(N)] for _ in range(N)]` with the folded column
     slice and the parity of first-two-axes transpositions applied before the block is stored into an R-indexed array."""
@@ -232,7 +239,8 @@ def _reader_blocks(g, S: Sem):
             lo = fold_int(S, sl.lower, at) if sl.lower is not None else 0
             hi = fold_int(S, sl.upper, at) if sl.upper is not None else None
             if lo is None or hi is None:
-                raise AnalysisError(f"{g.short}: cannot fold the column slice `{norm1(sl)}` of a block read")
+                _UNFOLDED.append(f"{g.short}: cannot fold the column slice `{norm1(sl)}` of a block read")
+                continue
             # follow the block to the statement that stores it into a subscripted target, counting transpositions
             ntr = sum(1 for c in ast.walk(st) if _is_T102(c) and any(x is n for x in ast.walk(c)))
             cur = st
@@ -347,7 +355,10 @@ def run(ctx) -> None:
         by_arr = _written_elements(w, WS_)
         blocks = _reader_blocks(r, RS_)
         if len(by_arr) != nblocks or len(blocks) < nblocks:
-            raise AnalysisError(f"{label}: expected {nblocks} written array(s) / read block(s), found {len(by_arr)} / {len(blocks)}")
+            r2.expect(False, "", r, r.node, f"{label}: expected {nblocks} written array(s) / read block(s), found {len(by_arr)} / {len(blocks)}"
+                      + (f" ({'; '.join(_UNFOLDED)})" if _UNFOLDED else ""))
+            _UNFOLDED.clear()
+            continue
         blocks.sort(key=lambda b_: b_["stmt"].lineno)
         warr = sorted(by_arr.items(), key=lambda kv: kv[1][3].lineno)
         pairs = [(warr[0], blocks[0])] + [(warr[-1], b_) for b_ in blocks[1:] if len(warr) > 1]
@@ -565,6 +576,7 @@ def run(ctx) -> None:
     LS.inline_helpers = False
     check_pointgroup_serialisation(ctx)
     check_reduced_shifts(ctx)
+    check_reader_writer_parameters(ctx)
     from ..taint import returning_listing_order
     ot = OrderTaint(load.node, LS.du, extra_sources=returning_listing_order(idx, [SR]))
     for s in ot.sources:
@@ -574,6 +586,36 @@ def run(ctx) -> None:
     r4.check(not sk, "directory listings in load_npz are used order-insensitively", load,
              enclosing(LS.pm, sk[0][0], ast.stmt) if sk else load.node,
              f"load_npz takes `{norm1(sk[0][0], 60)}` positionally from a directory listing" if sk else "")
+
+
+def check_reader_writer_parameters(ctx) -> None:
+    """R18.7 — the options of the file readers / writers are honoured: every parameter is read somewhere, and a `convention`
+    flag decides (is in the path condition of) the statement that moves the Wannier centres into / out of the diagonal of AA(R=0)."""
+    idx = ctx.index
+    r7 = ctx.rule("R18.7", "reader / writer options are honoured (no ignored parameter; convention flags guard the centre shift)", min_instances=6)
+    funcs = [(TB, "get_system_tb"), (TB, "write_tb_file"), (HR, "get_system_hr"), (HR, "write_hr_file"), (SR, "System_R.to_npz"), (SR, "System_R.load_npz")]
+    for rel, q in funcs:
+        f0 = idx.function(rel, q)
+        r7.instance(f0.short)
+        loads = {n.id for n in ast.walk(f0.node) if isinstance(n, ast.Name) and isinstance(n.ctx, ast.Load)}
+        unused = [p_ for p_ in f0.params if p_ not in loads and p_ not in ("self", "cls")]
+        r7.check(not unused, f"{f0.qualname}: every parameter is read", f0, f0.node,
+                 f"{f0.qualname} never reads its parameter(s) {unused}: the documented option has no effect (a default is used instead)",
+                 stmt=f"unused {unused}")
+        conv = [p_ for p_ in f0.params if "convention" in p_.lower()]
+        if not conv:
+            continue
+        g, GS = _prep(idx, f0)
+        shifts = [s_ for s_ in stmts(g.node) if isinstance(s_, ast.AugAssign) and isinstance(s_.op, (ast.Add, ast.Sub))
+                  and any(isinstance(n_, (ast.Name, ast.Attribute)) and norm(n_).split(".")[-1].split("__")[0] == "wannier_centers_cart" for n_ in ast.walk(s_.value))]
+        r7.expect(bool(shifts), f"{f0.qualname}: centre shift located", f0, f0.node,
+                  f"{f0.qualname}: the statement that adds / subtracts the Wannier centres on the diagonal of AA(R=0) was not found (also not in inlined helpers)")
+        for s_ in shifts:
+            cds = [(t_, p_) for t_, p_, _ in GS.conditions(s_, resolve=True)] + [(t_, p_) for t_, p_, _ in GS.conditions(s_, resolve=False)]
+            r7.check(any(t_ in conv and p_ for t_, p_ in cds), f"{f0.qualname}: the centre shift is decided by `{conv[0]}`", f0, s_,
+                     f"`{norm1(s_, 80)}` is executed under {[t_ for t_, p_ in cds] or 'no condition'}, not under the caller's `{conv[0]}`: "
+                     f"the option is ignored, so a round trip in the other convention leaves the centres on the diagonal of AA(R=0) with the wrong sign",
+                     stmt=f"centre shift not guarded by {conv[0]}")
 
 
 def check_reduced_shifts(ctx) -> None:
@@ -786,6 +828,7 @@ SELFTEST = [
     V("operation i saved under the prefix of operation i+1", PS, "ret[self._symm_dict_prefix(i) + k] = v", "ret[self._symm_dict_prefix(i + 1) + k] = v",
       "fire", "R18.5"),
     V("hr reader builds Rvectors with Cartesian centres (seeded C18-m4)", HR, "        shifts_left_red=system.wannier_centers_red,", "        shifts_left_red=system.wannier_centers_cart,", "fire", "R18.6"),
+    V("convention flag of the tb reader ignored", TB, "        if convention_II_to_I:\n            # convert to convention I\n", "        if True:\n            # convert to convention I\n", "fire", "R18.7"),
     V("neutral: reader split via len()", HR, "nup = (data.shape[0] + 1) // 2", "nup = (len(data) + 1) // 2", "silent"),
     V("neutral: reader split spelled n - n//2", HR, "nup = (data.shape[0] + 1) // 2", "nup = data.shape[0] - data.shape[0] // 2", "silent"),
     V("neutral: as_dict built from a display and update()", PS,
